@@ -316,7 +316,8 @@ def call_strategy():
                   st.sampled_from(["A", "B", "C", "U", "V", "W", "Q", " b ", "x", "y", "z"]),
                   st.sampled_from(["rename_axis", "format"])).map(
             lambda t: {"op": "relabel", "axis": t[0], "label": t[1], "via": t[2]}),
-        st.integers(0, 12).map(lambda n: {"op": "new_formatter", "dp": n}),
+        st.tuples(st.integers(0, 12), st.sampled_from([None, None, "lf", "crlf", "cr"])).map(
+            lambda t: {"op": "new_formatter", "dp": t[0], "eol": t[1]}),
         st.sampled_from([{"decimal_places": 1}, {"decimal_places": 0, "y_axis": "V"},
                          {"x_axis": "A", "z_axis": "C", "comment_symbols": "("},
                          {"decimal_places": 12, "line_endings": "\\r\\n", "comment_symbols": "#"}]).map(
@@ -432,6 +433,12 @@ def check_builder_case(case, ctx=None):
             dp = call["dp"]
             f.set_decimal_places(dp)
             f.set_comment_symbols(cfg["comment"])
+            if call.get("eol"):
+                # the new formatter ends lines differently: every later line must
+                # end the new way, exactly once
+                cfg = dict(cfg, eol=call["eol"])
+                s.eol = eol_of(call["eol"])[1]
+                classes.add("new_formatter_with_another_line_ending")
             f.set_line_endings(eol_of(cfg["eol"])[0])
             for a, l in labels.items():
                 f.set_axis_label(a.lower(), l)
